@@ -18,6 +18,15 @@ PLAIN_TYPES = ['u8', 'i32', 'bool', 'char', 'f64', 'String', "&'static str", 'Ve
                '(u8, i16)', 'Option<u8>', 'Box<[u8]>', 'usize', 'i128', '()', '::core::primitive::u8',
                '&&u8' if False else "&'static [u8]", 'fn(u8) -> u8' if False else 'Option<Vec<u8>>']
 METHOD_PATHS = ['m', 'my_mod::m', '::my_crate::m', 'Self::m', 'self::m', 'super::m', 'crate::a::b::m']
+# method paths with generic arguments (drawn with the request stream like the plain ones; every entry meets all
+# four PATH_FORMS through the spelling stream).  syn reads `method(P)` and the string forms with Path::parse
+# (generic arguments with or without the `::` turbofish, no qualified self) and `method = P` as an expression
+# (turbofish only, `<T as A>::f` accepted and reduced to `A::f`), so the last three are spelling dependent or refused:
+# qualified self, type-style arguments, and a malformed one.
+# The plain paths keep four fifths of the draws.  One entry has commas in its arguments (see path_form).
+METHOD_PATHS = METHOD_PATHS * 5 + [
+    'g::m::<4>', 'Conv::<u8>::m', "h::<{ 2 + 1 }>::m", '::k::m::<-1>', "Self::m::<'static>", "m::<Vec<u8>, 3, _, true,>",
+    '<T as A>::f', 'g::m<0>', 'Conv::<u8>::']
 
 class Ctx:
     def __init__(self, rng, sp, traits):
@@ -93,9 +102,17 @@ def sp_bool_param(sp, name, value):
         forms.append(name)
     return pick(sp, forms)
 
+def path_form(k, name, path):
+    """the k-th spelling of PATH_FORMS.  A path with commas in its generic arguments is not written `name = path`:
+    the model's meta parser cuts a parameter list at its top-level commas before it reads the values, so that
+    spelling is OutOfDomain for it (nothing to compare; the real macro meets it in the K2 suites).  The list form
+    stands in; the spelling stream is consumed all the same."""
+    if k == 1 and ',' in path:
+        k = 0
+    return ['%s(%s)', '%s = %s', '%s = "%s"', '%s("%s")'][k] % (name, path)
+
 def sp_path_param(sp, name, path):
-    return pick(sp, ['%s(%s)' % (name, path), '%s = %s' % (name, path),
-                     '%s = "%s"' % (name, path), '%s("%s")' % (name, path)])
+    return path_form(sp.randrange(4), name, path)
 
 def gen_bound(ctx, extra_preds=()):
     """returns (mode, spelled parameter text or None)"""
@@ -278,7 +295,7 @@ class G_Clone(TG):
         if allowed and ctx.notes.get('clone_methods') and c < 0.5:
             k = sp.randrange(4)
             note(ctx, 'Clone', 'field', place, 'method', PATH_FORM_NAMES[k])
-            s = 'Clone(%s%s)' % (PATH_FORMS[k] % ('method', m), ',' if sp.random() < 0.15 else '')
+            s = 'Clone(%s%s)' % (path_form(k, 'method', m), ',' if sp.random() < 0.15 else '')
             return s
         if c2 < 0.05:
             note(ctx, 'Clone', 'field', place, 'empty-list')
@@ -287,7 +304,7 @@ class G_Clone(TG):
             ctx.fault = 'clone_method_refused@' + place
             k = sp.randrange(4)
             note(ctx, 'Clone', 'field', place, 'method-refused', PATH_FORM_NAMES[k])
-            return 'Clone(%s)' % (PATH_FORMS[k] % ('method', m))
+            return 'Clone(%s)' % (path_form(k, 'method', m))
         if own_fault(ctx, 0.06):
             ctx.fault = 'clone_field_bad@' + place
             k = r.randrange(11)
